@@ -30,7 +30,7 @@ ASSUMPTIONS = ['attached pragmas / inline comments / comments of a CommentBlock 
                '(documented)',
                'expression finders are compared as multisets of object identities (no order is documented)',
                'unique mode: documented key (name, parent name, dimensions) / printed form']
-BUDGET_S = {'quick': 300, 'thorough': 3000}
+BUDGET_S = {'quick': 600, 'thorough': 3000}
 CASE_TIMEOUT_S = 120
 
 
